@@ -33,6 +33,7 @@ Inductive bop :=
 | BArgCompl (path : list str) (l : list str)
 | BArgFns (path : list str) (l : list nat)
 | BSynArg (path : list str) (a d : str)
+| BSelf (path : list str) (name desc : str)   (* Self on a command: display name and description *)
 | BSetFn (path : list str) (id : nat)
 | BHelp (name : str) (aliases : list str).
 
@@ -295,6 +296,8 @@ Section WithEnv.
         mkInfo (ni_name i) (ni_desc i) (ni_umode i) (ni_reqorder i) (ni_helpname i) (ni_fn i) (ni_suggestions i) (ni_sfns i ++ l) (ni_synargs i)))
     | BSynArg path a d => upd path (on_info (fun i =>
         mkInfo (ni_name i) (ni_desc i) (ni_umode i) (ni_reqorder i) (ni_helpname i) (ni_fn i) (ni_suggestions i) (ni_sfns i) (ni_synargs i ++ [(a, d)])))
+    | BSelf path name desc => upd path (on_info (fun i =>
+        mkInfo name desc (ni_umode i) (ni_reqorder i) (ni_helpname i) (ni_fn i) (ni_suggestions i) (ni_sfns i) (ni_synargs i)))
     | BSetFn path id => upd path (on_info (fun i =>
         mkInfo (ni_name i) (ni_desc i) (ni_umode i) (ni_reqorder i) (ni_helpname i) (FnUser id) (ni_suggestions i) (ni_sfns i) (ni_synargs i)))
     | BHelp name aliases =>
